@@ -2521,7 +2521,8 @@ def lgdt(info, a):
     return e
 
 def bittest_get(a, b):
-    if isinstance(a, ExprId):
+    if not isinstance(a, ExprMem):
+        # register (ExprId, or the slice of one under 16-bit operand size)
         off_bit = ExprOp('&', b, ExprInt_from(a, a.get_size() - 1))
         d = a
         #d = ExprOp('>>', a, off_bit)
@@ -2529,7 +2530,11 @@ def bittest_get(a, b):
         off_bit = ExprOp('&', b, ExprInt_from(a, a.get_size() - 1))
         off_byte = ExprOp("&",
                           ExprOp('>>', b, ExprInt_from(a, 3)),
-                          ExprOp('!', ExprInt_from(a, a.get_size()/8 -1)))
+                          ExprOp('!', ExprInt_from(a, a.get_size()//8 -1)))
+        if off_byte.get_size() < a.arg.get_size():
+            # 16-bit operand size: the byte offset in the width of the address
+            off_byte = ExprCompose([(off_byte, 0, off_byte.get_size()),
+                (ExprInt_from(off_byte, 0), off_byte.get_size(), a.arg.get_size())])
 
         d = ExprMem(a.arg+off_byte, a.size)
         #d = ExprOp('>>', mem, off_bit)
